@@ -286,6 +286,68 @@ def install(intr_cls):
 
     intr_cls.symbolic_for_ext = symbolic_for_ext
 
+    def symbolic_while_ext(self, eng, s, st):
+        """`while <test>: body` with a sidecar invariant (partial correctness; termination is NOT verified):
+             initiation    Inv holds on entry                                              (obligation)
+             preservation  from an ARBITRARY state satisfying Inv (and the test), one run of the body that ends
+                           normally or with `continue` re-establishes Inv                  (obligation)
+             exit          paths that leave through `break` / a false test continue after the loop with the state
+                           of that iteration (which satisfies Inv at its start); return / raise leave the function."""
+        fi = st.frames[-1]
+        ordinal = loop_ordinal(fi, s)
+        spec = eng.loop_specs.get((fi.qualname, ordinal))
+        if spec is None:
+            raise Unsupported(f"loop {ordinal} of {fi.qualname} has no invariant")
+        if s.orelse:
+            raise Unsupported("while ... else")
+        L = LoopCtx(eng, fi, ordinal, None, s)
+        spec.prepare(L, st)
+        L.entry = st.copy()
+        name = f"{fi.qualname}/loop{ordinal}"
+        for (label, cl) in spec.invariant(L, st, None):
+            eng.loop_goal(f"{name}/initiation:{label}", st, cl)
+        h = st.copy()
+        for nme in assigned_names(s.body, ast.Tuple(elts=[], ctx=ast.Store())):
+            if nme in h.loc and not nme.startswith("$"):
+                try:
+                    h.loc[nme] = havoc_value(h.loc[nme], nme + "~")
+                except Unsupported:
+                    pass
+        spec.havoc(L, h)
+        for (label, cl) in spec.invariant(L, h, None):
+            h.assume(cl)
+        for f in spec.iteration_facts(L, h, None):
+            h.assume(f)
+        h.trace.append((("loop-iteration", name), True))
+        outs = []
+        if not eng.feasible(h):
+            return outs
+        for (x0, tv) in eng.ev(s.test, h):
+            if isinstance(tv, Raise):
+                outs.append((x0, ("raise", tv.exc)))
+                continue
+            for (x1, t) in eng.truthy(x0, tv):
+                for (x, side) in eng.fork(x1, t, ("while", s.lineno)):
+                    if not side:
+                        for f in spec.at_exit(L, x):
+                            x.assume(f)
+                        outs.append((x, None))
+                        continue
+                    for (y, o2) in eng.run_block(s.body, x):
+                        if o2 is None or o2[0] == "continue":
+                            for (label, cl) in spec.invariant(L, y, None):
+                                eng.loop_goal(f"{name}/preservation:{label}", y, cl)
+                        elif o2[0] == "break":
+                            for f in spec.at_exit(L, y):
+                                y.assume(f)
+                            y.trace.append((("loop-exit", name), True))
+                            outs.append((y, None))
+                        else:
+                            outs.append((y, o2))
+        return outs
+
+    intr_cls.symbolic_while_ext = symbolic_while_ext
+
 
 def exit_indices(L):
     """The Skolem indices the invariant is instantiated at; at loop exit each of them has been visited
